@@ -189,6 +189,17 @@ func runProperty(id, tier string, timeout int, overlay map[string][]byte, only s
 				run.results = append(run.results, e.checkRecvOnly(rc))
 			}
 		}
+		for _, ng := range e.db.NoGlobals {
+			serves := false
+			for _, p := range ng.Props {
+				if p == id {
+					serves = true
+				}
+			}
+			if serves && (only == "" || strings.Contains("noglobals", only)) {
+				run.results = append(run.results, e.checkNoGlobals(ng))
+			}
+		}
 		for _, fm := range e.db.FlagMaps {
 			serves := false
 			for _, p := range fm.Props {
@@ -301,7 +312,11 @@ func cmdCheck(args []string) {
 		}
 	}
 	root := verifRoot()
-	replayDir := filepath.Join(root, "evidence", "replays", *id)
+	evDir := filepath.Join(root, "evidence")
+	if d := os.Getenv("VERIF_EVIDENCE"); d != "" {
+		evDir = d // development (seed evaluation): keep /verif/evidence describing the unchanged tree
+	}
+	replayDir := filepath.Join(evDir, "replays", *id)
 	os.RemoveAll(replayDir)
 	violations := 0
 	obligations, discharged := 0, 0
@@ -519,9 +534,9 @@ func cmdCheck(args []string) {
 		fmt.Fprintln(os.Stderr, "ENGINE-ERROR: no obligations generated for", *id)
 		os.Exit(2)
 	}
-	os.MkdirAll(filepath.Join(root, "evidence"), 0o755)
+	os.MkdirAll(evDir, 0o755)
 	b, _ := json.MarshalIndent(ev, "", " ")
-	if err := os.WriteFile(filepath.Join(root, "evidence", *id+".json"), b, 0o644); err != nil {
+	if err := os.WriteFile(filepath.Join(evDir, *id+".json"), b, 0o644); err != nil {
 		fmt.Fprintln(os.Stderr, "ENGINE-ERROR:", err)
 		os.Exit(2)
 	}
@@ -1095,4 +1110,73 @@ func tailLines(s string, n int) string {
 		ls = ls[len(ls)-n:]
 	}
 	return strings.Join(ls, "\n")
+}
+
+// checkNoGlobals: SSA scan of the named functions and of everything they call inside the same
+// package; any reference to a package-level variable (other than the allowed ones) fails.
+func (e *Engine) checkNoGlobals(ng *NoGlobalsCheck) *FuncResult {
+	key := ng.Pkg + "." + strings.Join(ng.Funcs, ",") + "$noglobals"
+	res := &FuncResult{Key: key, Unmodelled: map[string]int{}, Assumed: map[string]int{}, Notes: map[string]int{}, Inlined: map[string]int{}}
+	allow := map[string]bool{}
+	for _, a := range ng.Allow {
+		allow[a] = true
+	}
+	for _, fname := range ng.Funcs {
+		o := &Obligation{Func: key, Name: "ground[no package state: " + fname + "]", Kind: "ground", Label: "no-package-state", Where: ng.Where, Goal: tTrue}
+		res.Obls = append(res.Obls, o)
+		root := e.fnByKey[ng.Pkg+"."+fname]
+		msg := ""
+		if root == nil || root.Blocks == nil {
+			msg = "function " + fname + " not found"
+		} else {
+			seen := map[*ssa.Function]bool{}
+			var bad []string
+			var walk func(fn *ssa.Function)
+			walk = func(fn *ssa.Function) {
+				if fn == nil || seen[fn] || fn.Blocks == nil {
+					return
+				}
+				seen[fn] = true
+				for _, b := range fn.Blocks {
+					for _, ins := range b.Instrs {
+						for _, op := range ins.Operands(nil) {
+							if op == nil || *op == nil {
+								continue
+							}
+							switch v := (*op).(type) {
+							case *ssa.Global:
+								if v.Pkg != nil && v.Pkg.Pkg.Path() == ng.Pkg && !allow[v.Name()] && !strings.HasPrefix(v.Name(), "init$") {
+									bad = append(bad, fmt.Sprintf("%s uses the package variable %s (%s)", fn.Name(), v.Name(), e.prog.Fset.Position(ins.Pos())))
+								}
+							case *ssa.Function:
+								if v.Pkg != nil && v.Pkg.Pkg.Path() == ng.Pkg {
+									walk(v)
+								}
+							case *ssa.MakeClosure:
+								walk(v.Fn.(*ssa.Function))
+							}
+						}
+					}
+				}
+				for _, anon := range fn.AnonFuncs {
+					walk(anon)
+				}
+			}
+			walk(root)
+			sort.Strings(bad)
+			if len(bad) > 0 {
+				if len(bad) > 5 {
+					bad = bad[:5]
+				}
+				msg = strings.Join(bad, "; ")
+			}
+		}
+		if msg == "" {
+			o.Res = &SolveResult{Status: "unsat", Backend: "go/ssa scan"}
+		} else {
+			o.Res = &SolveResult{Status: "sat", Backend: "go/ssa scan", Output: msg}
+			o.Query = "; " + msg
+		}
+	}
+	return res
 }
